@@ -31,7 +31,7 @@ EXTRA = {
             ('TraceBtpe', 'TraceBtpe.cfg', 'cheng.ndjson', {}, {'cheng': ['T', 'xq']}),
             ('TraceCompose', 'TraceCompose.cfg', 'comp_0.ndjson', {}, {'wire': ['got', 'gcls'], 'msh': ['T', 'words_same']})],
     'C02': [('TraceRejection', 'TraceRejection.cfg', 'rej.ndjson', {}, {'law': ['P', 'other', 'nonint']}),
-            ('TraceBtpe', 'TraceBtpe.cfg', 'btpe.ndjson', {}, {'btpe2': ['T', 'y'], 'btpe1': ['cnts'], 'btpet': ['lo', 'hi']}),
+            ('TraceBtpe', 'TraceBtpe.cfg', 'btpe.ndjson', {}, {'btpe2': ['T', 'y'], 'btpe2h': ['T', 'dy'], 'btpe1': ['cnts'], 'btpet': ['lo', 'hi']}),
             ('TraceBtpe', 'TraceBtpe.cfg', 'h2pe.ndjson', {}, {'h2pe1': ['T', 'out'], 'h2pet': ['lo', 'hi']}),
             ('TraceBtpe', 'TraceBtpe.cfg', 'pd.ndjson', {}, {'pd': ['T', 'k'], 'pdh': ['ap', 'am']}),
             ('TraceBtpe', 'TraceBtpe.cfg', 'rej64.ndjson', {}, {'rej64': ['T', 'x']}),
